@@ -473,8 +473,14 @@ def compare_models(A, B, ck=None, label="", strict=False, approx_tol=None):
                 d = abs((o["value"] - u["value"] + math.pi) % (2 * math.pi) - math.pi)
                 # an export with angular="360" writes every angular value in degrees-minutes-seconds
                 dms = (bool(u.get("dms")) or pb["angular"] == "360") and not strict
-                tol = 1e-13 if strict else (TOL_ANG_DMS if dms else TOL_ANG)
+                tol = 1e-13 if strict else TOL_ANG
                 name = "angular value (sexagesimal export)" if dms else "angular value"
+                if dms and TOL_ANG < d <= TOL_ANG_DMS:
+                    # the value agrees to the 4 decimals of an arc second that the export prints
+                    ck is not None and ck.ratio(label + name, d, tol)
+                    bad.append(("obs:value:%s:sexagesimal-rounding" % grp, "%s: value %.17g vs %.17g rad (diff %.3g gon), "
+                                "printed in degrees with 4 decimals of a second" % (who, o["value"], u["value"], d / GON)))
+                    d = 0.0
             else:
                 tol = 1e-13 * max(1.0, abs(o["value"])) if strict else TOL_LEN
                 name = "linear value"
@@ -525,7 +531,7 @@ _NON_MATH = ("obs:extern", "cluster:extern", "param:description", "param:epoch",
 
 def _is_math(fld):
     """does a difference in this field change the adjustment (as opposed to carried information)?"""
-    if fld.startswith(_NON_MATH):
+    if fld.startswith(_NON_MATH) or fld.endswith(":sexagesimal-rounding"):
         return False
     m = re.match(r"obs:(from_dh|to_dh|bs_dh|fs_dh):(.*)", fld)
     if m:
@@ -881,7 +887,7 @@ def check_chain(ck, case, res, seed, tier):
     if ck.sanitizer(res["drv_rr"], dict(wit, inputs=texts[:2]), prefix="modeldrv(GKFparser):"):
         return
     oc0 = netlevel.outcome(runs[0])
-    if oc0 == "ill-formed-xml" and case["idclass"] == "xml-special" and len(texts) > 1:
+    if oc0 == "ill-formed-xml" and (case["idclass"] == "xml-special" or "extern-xml-special" in case["feats"]) and len(texts) > 1:
         # ids with XML specials make the *adjustment* XML ill-formed (property C12); the export chain is still
         # examined as far as it does not need the adjustment results
         ck.count("chains examined without adjustment results (ill-formed adjustment XML, see C12)")
@@ -1032,8 +1038,11 @@ def check_chain(ck, case, res, seed, tier):
         # reductions computed from older approximate coordinates, the re-adjustment computes them afresh
         stale = it_k > 0 and any(o["type"] in ("s-distance", "z-angle") and (o["from_dh"] or o["to_dh"])
                                  for c in P[k]["clusters"] for o in c["obs"])
-        sfx = ":approx-replaced-by-observed-coordinates" if overridden else (":stale-dh-reduction" if stale else "")
-        sfx_txt = " (approx. replaced by observed coordinates)" if overridden else (" (stale dh reductions)" if stale else "")
+        sexa = any(f.endswith(":sexagesimal-rounding") for f in seen)
+        sfx = ":approx-replaced-by-observed-coordinates" if overridden else (":stale-dh-reduction" if stale else (
+            ":sexagesimal-rounding" if sexa else ""))
+        sfx_txt = " (approx. replaced by observed coordinates)" if overridden else (" (stale dh reductions)" if stale else (
+            " (angles exported with 4 decimals of an arc second)" if sexa else ""))
         seen_c = set()
         for key, msg, okey in netlevel.compare_physical(A, B):
             if key in seen_c:
@@ -1062,11 +1071,15 @@ def check_chain(ck, case, res, seed, tier):
         for view, A, B in (("reader", P[ROUNDS - 1], P[ROUNDS]), ("parser", M[ROUNDS - 1], M[ROUNDS])):
             if A is None or B is None:
                 continue
+            ell = A["params"]["has-latitude"] or A["params"]["has-ellipsoid"]
             for b in compare_models(A, B, ck=ck, label="(fixed point) ", approx_tol=TOL_XY):
-                if b[0] in seen:
+                fld = b[0]
+                if ell and (fld.startswith("obs:value:") and fld.endswith(":value") or fld == "approx-coordinate"):
+                    fld = fld.rsplit(":value", 1)[0] + ":ellipsoid-reduction"
+                if fld in seen:
                     continue
-                seen.add(b[0])
-                viol("fixed-point:%s" % b[0], "in%d vs in%d (%s view): %s" % (ROUNDS - 1, ROUNDS, view, b[1]))
+                seen.add(fld)
+                viol("fixed-point:%s" % fld, "in%d vs in%d (%s view): %s" % (ROUNDS - 1, ROUNDS, view, b[1]))
         tA, tB = P[ROUNDS - 1]["top"], P[ROUNDS]["top"]
         for pid in tA:
             for c in tA[pid]:
@@ -1074,7 +1087,7 @@ def check_chain(ck, case, res, seed, tier):
                     if ck.ratio("(fixed point) <point> coordinate as written", abs(tA[pid][c] - tB[pid][c]), TOL_XY(tA[pid][c])) > 1 \
                             and "top" not in seen:
                         seen.add("top")
-                        viol("fixed-point:point-coordinate", "in%d vs in%d: <point id=%r> %s %.17g vs %.17g" % (
+                        viol("fixed-point:point-coordinate" + (":ellipsoid-reduction" if ell else ""), "in%d vs in%d: <point id=%r> %s %.17g vs %.17g" % (
                             ROUNDS - 1, ROUNDS, pid, c, tA[pid][c], tB[pid][c]))
         ck.count("fixed-point comparisons")
         ck.cls(base_cls + ("fixed-point",))
